@@ -252,6 +252,40 @@ def _midi_bindings():
     q.read()
 
 
+def _failed_saves():
+    """Saves that fail because a field does not fit its file field (a user's mistake, corrected afterwards)."""
+    from rv.api import Pattern, Project, Synth, m
+
+    s = m.Sampler()
+    smp = s.Sample()
+    smp.data = b"abcdefgh"
+    s.samples[0] = smp
+    for attr, bad in (("volume", 300), ("finetune", 99999), ("name", "text instead of bytes")):
+        old = getattr(smp, attr)
+        setattr(smp, attr, bad)
+        try:
+            Synth(s).read()
+        except Exception:  # noqa: BLE001
+            pass
+        setattr(smp, attr, old)
+    mm = m.MetaModule()
+    amp = mm.project.new_module(m.Amplifier)
+    p = Project()
+    p.attach_module(mm)
+    pat = Pattern(tracks=1, lines=1)
+    p.attach_pattern(pat)
+    for obj, attr, bad in ((amp, "mod_finetune", 2**40), (mm, "x", 2**40), (pat, "y", 2**40), (p, "initial_bpm", -1), (amp, "name", None)):
+        old = getattr(obj, attr)
+        setattr(obj, attr, bad)
+        for fn in (p.read, lambda: Synth(mm).read(), mm.clone):
+            try:
+                fn()
+            except Exception:  # noqa: BLE001
+                pass
+        setattr(obj, attr, old)
+    p.read()
+
+
 def _surplus_and_missing_chunks():
     """Files as other SunVox versions write them: more CVAL/CMID records than the type declares
     controllers, fewer than it declares, unknown chunk ids, extra numbered CHNK entries."""
@@ -293,10 +327,11 @@ OPS = [
     _fixtures,
     _surplus_and_missing_chunks,
     _midi_bindings,
+    _failed_saves,
 ]
 
 # cheap ops that a check may run *inside* a case (between two observations of one object)
-LIGHT = [_legacy_version_load, _metamodule_mapped, _nested_metamodule, _sampler_edited, _failed_loads, _options_toggled, _midi_bindings, _surplus_and_missing_chunks]
+LIGHT = [_failed_saves, _legacy_version_load, _metamodule_mapped, _nested_metamodule, _sampler_edited, _failed_loads, _options_toggled, _midi_bindings, _surplus_and_missing_chunks]
 
 
 def light(i):
